@@ -60,15 +60,18 @@ def concrete_specs(tier: str):
             for wa, wq, wt, wb in itertools.product(W, (1, 2), W, W):
                 for deco in range(4):
                     for mt in (None, 0.0, 0.25, 3.0):
-                        yield (si, pi, wa, wq, wt, wb, deco, mt)
+                        yield (si, pi, wa, wq, wt, wb, deco, mt, 'or')
+                if max(wa, wt, wb) >= 3:
+                    for nest in ('orL', 'orB'):
+                        yield (si, pi, wa, wq, wt, wb, 1, 0.25, nest)
 
 
 def run_concrete(ck: Check, totality: bool = False):
     n = bad = known = 0
     seen = set()
-    for (si, pi, wa, wq, wt, wb, deco, mt) in concrete_specs(ck.tier):
-        spec = c11_sx.mk(si, pi, wa, wq, wt, wb, deco, mt, 'T')
-        key = props.render_property(spec)
+    for (si, pi, wa, wq, wt, wb, deco, mt, nest) in concrete_specs(ck.tier):
+        spec = c11_sx.mk(si, pi, wa, wq, wt, wb, deco, mt, 'T', nest)
+        key = props.render_property(spec) + ('' if nest == 'or' else f'  [{nest}]')
         if key in seen:
             continue
         seen.add(key)
@@ -86,10 +89,10 @@ def run_concrete(ck: Check, totality: bool = False):
         if r[0] == 'known':
             known += 1
             ck.counterexample(f'canonical_form:HplSanityError:{r[1]}', f'canonical_form raises HplSanityError on the valid property «{key}»',
-                              {'kind': 'canonical_form', 'text': key, 'args': [si, pi, wa, wq, wt, wb, deco, mt]})
+                              {'kind': 'canonical_form', 'text': key, 'args': [si, pi, wa, wq, wt, wb, deco, mt], 'nest': nest})
         else:
             bad += 1
-            ck.counterexample(f'canonical_form:{r[0]}@{key}', f'canonical_form on «{key}»: {r}', {'kind': 'canonical_form', 'text': key, 'args': [si, pi, wa, wq, wt, wb, deco, mt], 'observed': [str(x) for x in r]})
+            ck.counterexample(f'canonical_form:{r[0]}@{key}', f'canonical_form on «{key}»: {r}', {'kind': 'canonical_form', 'text': key, 'args': [si, pi, wa, wq, wt, wb, deco, mt], 'nest': nest, 'observed': [str(x) for x in r]})
     return n, bad, known
 
 
@@ -164,7 +167,7 @@ def main() -> int:
 def replay(data) -> int:
     print('recorded:', data.get('what'))
     if data.get('kind') == 'canonical_form':
-        spec = c11_sx.mk(*data['args'], 'T')
+        spec = c11_sx.mk(*data['args'], 'T', data.get('nest', 'or'))
         print('re-run  :', c11_sx.check(spec))
     elif data.get('kind') == 'sx':
         a = data['args']
